@@ -191,6 +191,37 @@ VARIANTS = [
     ("mkdirs-exist-ok-style-comment", S, None, [(AF, '    """Make parent directories for the specified file if they don\'t exist."""', '    """Make parent directories for the specified file if they do not exist yet."""')]),
     ("files-loop-temporary", S, None, [(AF, "    for in_path, out_path in file_list:\n", "    pairs = file_list\n    for in_path, out_path in pairs:\n")]),
     ("parse-args-unchanged-help", S, None, [(NC, 'help="Anonymize IP addresses",', 'help="Anonymize IPv4 and IPv6 addresses",')]),
+    # ---------------- model integrity: the program analysed is the program that runs (every property) -----------------
+    ("function-rebound-at-module-bottom", F, ["C01", "C03", "C13"], [(IP, None, "\n\ndef _fast_bit(salt, string):\n    return 0\n\n\n_generate_bit_from_hash = _fast_bit\n")]),
+    ("function-defined-twice", F, ["C11", "C12"], [(SI, None, "\n\ndef anonymize_as_numbers(anonymizer, line):\n    return line\n")]),
+    ("method-patched-from-another-module", F, ["C05", "C06", "C16"], [(AF, None, "\n\ndef _no_mask(self, possible_mask_int):\n    return False\n\n\nIpAnonymizer._is_mask = _no_mask\n")]),
+    ("library-class-patched-at-import", F, ["C06", "C17", "C18"], [(JS, None, "\n\nimport ipaddress\nipaddress.IPv4Address.__str__ = lambda self: 'x'\n")]),
+    ("library-function-patched-in-function", F, ["C14", "C16"], [(AF, "    file_anonymizer = FileAnonymizer(", "    os.makedirs = lambda *a, **k: None\n    file_anonymizer = FileAnonymizer(")]),
+    ("truth-of-stage-object-redefined", F, ["C11", "C15"], [(SI, "    def anonymize(self, as_number):\n", "    def __bool__(self):\n        return len(self.as_num_map) > 2\n\n    def anonymize(self, as_number):\n")]),
+    ("getattr-fallback-on-anonymizer", F, ["C02", "C04"], [(IP, "    def anonymize(self, ip_int):\n        bits", "    def __getattr__(self, name):\n        return 0\n\n    def anonymize(self, ip_int):\n        bits")]),
+    ("property-on-anonymizer", F, ["C01"], [(IP, "    def anonymize(self, ip_int):\n        bits", "    @property\n    def width(self):\n        return self.length\n\n    def anonymize(self, ip_int):\n        bits")]),
+    ("package-decorator-skips-comment-lines", F, ["C11", "C08"], [(SI, "def anonymize_as_numbers(anonymizer, line):", "def _skip_comments(fn):\n    def inner(anonymizer, line):\n        if line.startswith('!'):\n            return line\n        return fn(anonymizer, line)\n    return inner\n\n\n@_skip_comments\ndef anonymize_as_numbers(anonymizer, line):")]),
+    ("pattern-table-changed-at-import", F, ["C07", "C09"], [(PW, None, "\n\ndefault_pwd_line_regexes.pop()\n")]),
+    ("table-augmented-at-import", F, ["C07"], [(SI, None, "\n\nextra_password_regexes += []\n")]),
+    ("constant-depends-on-environment-at-import", F, ["C13"], [(AF, "_DEFAULT_SALT_LENGTH = 16", "_DEFAULT_SALT_LENGTH = 16\nif os.environ.get('NETCONAN_SHORT_SALT'):\n    _DEFAULT_SALT_LENGTH = 4")]),
+    ("call-at-import", F, ["C07", "C19"], [(NC, None, "\n\nlogging.getLogger().setLevel(logging.DEBUG)\n")]),
+    ("method-slot-filled-by-assignment", F, ["C02", "C17"], [(IP, "class IpV6Anonymizer(_BaseIpAnonymizer):", "class IpV6Anonymizer(_BaseIpAnonymizer):\n    anonymize = _BaseIpAnonymizer.deanonymize\n")]),
+    ("global-statement-rebinds-function", F, ["C16"], [(AF, "    file_anonymizer = FileAnonymizer(", "    global _mkdirs\n    _mkdirs = lambda p: None\n    file_anonymizer = FileAnonymizer(")]),
+    ("custom-metaclass", F, ["C15", "C16"], [(AF, "class FileAnonymizer:", "class _Meta(type):\n    def __call__(cls, *a, **k):\n        return type.__call__(cls, *a, **k)\n\n\nclass FileAnonymizer(metaclass=_Meta):")]),
+    ("class-decorator", F, ["C11"], [(SI, "class AsNumberAnonymizer(object):", "def _register(c):\n    return c\n\n\n@_register\nclass AsNumberAnonymizer(object):")]),
+    ("exec-in-main", F, ["C19"], [(NC, "    args = _parse_args(argv)", "    exec('pass')\n    args = _parse_args(argv)")]),
+    ("instance-dict-written", F, ["C13", "C15"], [(AF, "        self.salt = salt\n", "        self.salt = salt\n        self.__dict__.update(salt=salt)\n")]),
+    ("star-import", F, ["C10"], [(AF, "import string\n", "import string\nfrom .default_reserved_words import *\n")]),
+    ("import-rebound-to-another-hash", F, ["C01", "C13"], [(IP, "from hashlib import md5\n", "from hashlib import md5\nfrom hashlib import sha1 as md5\n")]),
+    ("memoising-wrapper-bound-to-the-old-name", F, ["C03", "C13"], [(IP, "def _generate_bit_from_hash(salt, string):", "def _memoized(fn):\n    memo = {}\n\n    def inner(salt, string):\n        if string not in memo:\n            memo[string] = fn(salt, string)\n        return memo[string]\n\n    return inner\n\n\ndef _raw_bit_from_hash(salt, string):"), (IP, "class _BaseIpAnonymizer(object, metaclass=ABCMeta):", "_generate_bit_from_hash = _memoized(_raw_bit_from_hash)\n\n\nclass _BaseIpAnonymizer(object, metaclass=ABCMeta):")]),
+    ("mixin-before-the-base-overrides-anonymize", F, ["C01", "C02", "C03", "C05"], [(IP, "class IpAnonymizer(_BaseIpAnonymizer):", "class _Fast(object):\n    def anonymize(self, ip_int):\n        return ip_int\n\n\nclass IpAnonymizer(_Fast, _BaseIpAnonymizer):")]),
+    ("external-base-class", F, ["C08"], [(SI, "class SensitiveWordAnonymizer(object):", "class SensitiveWordAnonymizer(dict):")]),
+    ("mixin-after-the-base-adds-a-method", S, None, [(IP, "class IpAnonymizer(_BaseIpAnonymizer):", "class _Describe(object):\n    def describe(self):\n        return 'v4'\n\n\nclass IpAnonymizer(_BaseIpAnonymizer, _Describe):")]),
+    ("repr-on-anonymizer", S, None, [(SI, "    def anonymize(self, as_number):\n", "    def __repr__(self):\n        return 'AsNumberAnonymizer(%d numbers)' % len(self.as_num_map)\n\n    def anonymize(self, as_number):\n")]),
+    ("type-checking-import", S, None, [(AF, "import string\n", "import string\nfrom typing import TYPE_CHECKING\n\nif TYPE_CHECKING:\n    from typing import IO\n")]),
+    ("local-named-like-a-builtin", S, None, [(AF, "    for in_path, out_path in file_list:\n", "    for in_path, out_path in file_list:\n        input = in_path\n")]),
+    ("module-level-tuple-assignment", S, None, [(AF, "_DEFAULT_SALT_LENGTH = 16", "_DEFAULT_SALT_LENGTH, _UNUSED_WIDTH = 16, 80")]),
+    ("unused-module-constant-from-library-call", S, None, [(SI, "_ANON_SENSITIVE_WORD_LEN = 6", "_ANON_SENSITIVE_WORD_LEN = 6\n_HEX_DIGITS = frozenset('0123456789abcdef')")]),
 ]
 
 
@@ -198,7 +229,12 @@ def _apply(files, edits):
     new = dict(files)
     for rel, old, repl in edits:
         src = new.get(rel)
-        if src is None or src.count(old) != 1:
+        if src is None:
+            return None
+        if old is None:  # append to the module
+            new[rel] = src + repl
+            continue
+        if src.count(old) != 1:
             return None
         new[rel] = src.replace(old, repl)
     return new
